@@ -15,7 +15,10 @@ Binding crash-state enumeration on the real engine: the writer process (sigdrv d
         Trace_FlushProtocol (conformance: the exhaustive model result transfers only if the code writes in the order the
         spec assumes); it was this validation that showed the rotation's second .sfm rewrite, which the first spec lacked.
         History "tree" runs with the persistent-query machinery primed, so that a rotation writes an agile tree
-        (.strm / .strl) and recovered states are also asked a match-all group-by.
+        (.strm / .strl) and recovered states are also asked a match-all group-by.  History "refresh" flushes INSIDE
+        the ingest call (flush=true: ?refresh / OTLP shouldFlush), alone and on top of waiting events; history "big" sends
+        one request larger than the write buffer, so that the ingest call flushes a full buffer by itself mid-request
+        (its events may be on disk from the moment the call began and must be visible as a prefix of the request).
 """
 import json
 import os
